@@ -3,6 +3,7 @@ package main
 import (
 	"encoding/json"
 	"fmt"
+	"os"
 	"reflect"
 	"strings"
 
@@ -573,3 +574,53 @@ func famCompose(g *gen, e *emitter, n int) {
 }
 
 var _ = json.Marshal
+
+// ---- corpus / replay: cases read from a JSON-lines file ----
+// {"family":"corpus","text":"$[0]","doc":"[null,1]","number":false,"vars":{"x":"1"},"int64vars":{"n":5},"usetz":false,"tz":0,"cancel":false}
+type fileCase struct {
+	Family    string            `json:"family"`
+	Text      string            `json:"text"`
+	Doc       string            `json:"doc"`
+	Number    bool              `json:"number"`
+	Vars      map[string]string `json:"vars"`
+	Int64Vars map[string]int64  `json:"int64vars"`
+	UseTZ     bool              `json:"usetz"`
+	TZ        int               `json:"tz"`
+	Cancel    bool              `json:"cancel"`
+}
+
+func famFile(e *emitter, path string) {
+	data, err := os.ReadFile(path)
+	if err != nil {
+		fmt.Fprintln(os.Stderr, err)
+		os.Exit(2)
+	}
+	for _, line := range strings.Split(string(data), "\n") {
+		line = strings.TrimSpace(line)
+		if line == "" || strings.HasPrefix(line, "#") {
+			continue
+		}
+		var fc fileCase
+		if err := json.Unmarshal([]byte(line), &fc); err != nil {
+			fmt.Fprintf(os.Stderr, "bad corpus line %q: %v\n", line, err)
+			os.Exit(2)
+		}
+		if fc.Family == "" {
+			fc.Family = "corpus"
+		}
+		if fc.Doc == "" {
+			fc.Doc = "null"
+		}
+		var vars map[string]any
+		if fc.Vars != nil || fc.Int64Vars != nil {
+			vars = map[string]any{}
+			for k, v := range fc.Vars {
+				vars[k] = mustDoc(v, fc.Number)
+			}
+			for k, v := range fc.Int64Vars {
+				vars[k] = v
+			}
+		}
+		e.emit(caseSpec{family: fc.Family, text: fc.Text, doc: mustDoc(fc.Doc, fc.Number), vars: vars, useTZ: fc.UseTZ, tzOff: fc.TZ, cancel: fc.Cancel})
+	}
+}
